@@ -64,6 +64,26 @@ func detProjects(n int) []*detCase {
 		add("ok-cwd-anchored-output", []string{"a", "b"},
 			&proj.Conv{Dir: "a", File: "conv.go", Name: "ConvA", Lines: []string{"output:file @cwd/out/gen.go"}, In: "Deep", Out: "DeepOut"},
 			&proj.Conv{Dir: "b", File: "conv.go", Name: "ConvB", Lines: []string{"output:file @cwd/b/gen/gen.go"}})
+		// six explicit methods whose generated helpers compete for the same name (six packages all called `model`):
+		// the order in which explicit methods are built decides who gets which suffix
+		{
+			id := len(cs)
+			mod := fmt.Sprintf("example.org/d%d", id)
+			extra := scratch.Tree{"api/api.go": "package api\n\ntype Item struct{ A int }\ntype Order struct {\n\tI  Item\n\tIs []Item\n}\n"}
+			var imports, methods strings.Builder
+			for v := 1; v <= 6; v++ {
+				extra[fmt.Sprintf("v%d/model/m.go", v)] = "package model\n\ntype Item struct{ A int }\ntype Order struct {\n\tI  Item\n\tIs []Item\n}\n"
+				fmt.Fprintf(&imports, "\tm%d \"%s/v%d/model\"\n", v, mod, v)
+				fmt.Fprintf(&methods, "\tFromV%d(source m%d.Order) api.Order\n", v, v)
+			}
+			extra["a/conv.go"] = "package a\n\nimport (\n\t\"" + mod + "/api\"\n" + imports.String() + ")\n\n// goverter:converter\ntype Conv interface {\n" + methods.String() + "}\n"
+			cs = append(cs, &detCase{ID: id, Kind: "colliding-helper-names", Dirs: []string{"a"}, Project: &proj.Project{Module: mod, Extra: extra}})
+		}
+		// six explicit methods, each faulty for its own reason at the generation stage: the reported one must not depend
+		// on the order in which the methods happen to be built
+		add("several-failing-methods", []string{"a"},
+			&proj.Conv{Dir: "a", File: "conv.go", Name: "ConvA",
+				RawBody: "\tAa(source In) OutBad\n\tBb(source In) Wide\n\tCc(source Deep) Out\n\tDd(source Color) Colour\n\tEe(source *In) Out\n\tFf(source []In) []OutBad\n"})
 		add("unknown-fields", []string{"a"},
 			&proj.Conv{Dir: "a", File: "conv.go", Name: "ConvA", MethodLines: []string{"ignore Xa Xb Xc Xd", "map V Xe"}})
 		add("unknown-enum-keys", []string{"a"},
@@ -118,13 +138,13 @@ func collectOutputs(root string, before map[string]scratch.Entry) map[string]str
 }
 
 func runC09(e *env) error {
-	e.rep.Rule = "cases = projects (successful, and failing with several simultaneous faults so that every map iteration in the code has >= 2 candidates: unknown fields, unknown enum keys, several faulty variables, several methods with misplaced field settings, several faulty packages/files, same-named converters, several missing contexts); each is run by the goverter binary: baseline, 4 repetitions in fresh processes, permuted and duplicated package patterns, ./... , -cwd (absolute and relative) from another directory, a relocated copy of the module, and over the outputs of the previous run; exit status, stderr (paths relativised to the module root) and the bytes of every written file are compared with the baseline. non-trivial = every case (each has several packages/converters or several faults); distinct = project x variant"
+	e.rep.Rule = "cases = projects (successful, and failing with several simultaneous faults so that every map iteration in the code has >= 2 candidates: unknown fields, unknown enum keys, several faulty variables, several methods with misplaced field settings, several faulty packages/files, same-named converters, several missing contexts, six methods failing for different reasons, six explicit methods whose helper names collide); each is run by the goverter binary: baseline, 4 repetitions in fresh processes, permuted and duplicated package patterns, ./... , -cwd (absolute and relative) from another directory, a relocated copy of the module, and over the outputs of the previous run; exit status, stderr (paths relativised to the module root) and the bytes of every written file are compared with the baseline. non-trivial = every case (each has several packages/converters or several faults); distinct = project x variant"
 	bin := goverterBin(e)
 	base := filepath.Join(e.scratch, "c09")
 	_ = os.MkdirAll(base, 0o755)
-	n, reps := 13, 4
+	n, reps := 15, 4
 	if e.thorough {
-		n, reps = 39*e.scale, 12
+		n, reps = 45*e.scale, 12
 	}
 	cases := detProjects(n)
 	type result struct {
@@ -201,7 +221,7 @@ func runC09(e *env) error {
 		baseKey := obs[0].key()
 		e.rep.Count(dc.Kind + fmt.Sprintf(".exit%d", obs[0].Exit))
 		for _, o := range obs[1:] {
-			e.rep.Nontrivial(fmt.Sprintf("%d|%s", dc.ID%13, o.Variant))
+			e.rep.Nontrivial(fmt.Sprintf("%d|%s", dc.ID%15, o.Variant))
 			if o.key() != baseKey {
 				class := "nondeterminism:" + dc.Kind
 				e.rep.Violation(class, map[string]any{"case": dc, "baseline": obs[0], "differs": o,
